@@ -195,7 +195,11 @@ bool GeneratorImplAST::ViDecart(Cursor iter) {
     if (child > 0) {
       rsText += Token::Str(TokenID::DECART, syntax);
     }
-    OutputChild(iter, child, iter(child).id == TokenID::DECART);
+    const auto order = Token::CompareOperations(iter->id, iter(child).id);
+    const auto needBrackets = child == 0 ?
+      iter(child).id == TokenID::DECART || order == Comparison::GREATER :
+      order == Comparison::EQUAL || order == Comparison::GREATER;
+    OutputChild(iter, child, needBrackets);
   }
   return true;
 }
